@@ -6,6 +6,7 @@ pub mod oracle {
 }
 pub mod rng;
 pub mod run;
+pub mod sched;
 pub mod sess;
 pub mod tm;
 
@@ -16,6 +17,15 @@ use std::collections::{BTreeMap, HashSet};
 use std::sync::atomic::{AtomicBool, AtomicU64, Ordering};
 use std::sync::{Arc, Mutex};
 use std::time::Instant;
+
+fn gen_run(check: &'static dyn Check, seed: u64, i: u64, tier: Tier) -> Run {
+    let rs = rng::run_seed(seed, check.id(), i);
+    if i < check.enumerated(tier) {
+        check.gen_enum(i, rs, tier)
+    } else {
+        check.gen(rs, tier)
+    }
+}
 
 fn exec_isolated(check: &'static dyn Check, run: &Run) -> Outcome {
     let run = run.clone();
@@ -185,7 +195,7 @@ fn cmd_emit(get: &dyn Fn(&str) -> Option<String>) -> i32 {
     let seed: u64 = get("--seed").map(|s| s.parse().unwrap()).unwrap_or(1);
     let i: u64 = get("--index").map(|s| s.parse().unwrap()).unwrap_or(0);
     let tier = if get("--tier").as_deref() == Some("thorough") { Tier::Thorough } else { Tier::Quick };
-    let run = check.gen(rng::run_seed(seed, check.id(), i), tier);
+    let run = gen_run(check, seed, i, tier);
     println!("{}", serde_json::to_string_pretty(&run.to_json()).unwrap());
     0
 }
@@ -276,7 +286,7 @@ fn cmd_run(get: &dyn Fn(&str) -> Option<String>) -> i32 {
                 break;
             }
             let rs = rng::run_seed(seed, check.id(), i);
-            let run = check.gen(rs, tier);
+            let run = gen_run(check, seed, i, tier);
             let o = exec_isolated(check, &run);
             let mut a = agg.lock().unwrap();
             a.evaluations += 1;
@@ -337,7 +347,7 @@ fn cmd_run(get: &dyn Fn(&str) -> Option<String>) -> i32 {
     let mut det_mismatch: Option<String> = None;
     if a.violation.is_none() {
         for (i, (rs, digest)) in a.log_hashes.iter() {
-            let run = check.gen(*rs, tier);
+            let run = gen_run(check, seed, *i, tier);
             let o = exec_isolated(check, &run);
             det_checked += 1;
             let d2 = outcome_digest(&o);
@@ -424,6 +434,8 @@ fn cmd_run(get: &dyn Fn(&str) -> Option<String>) -> i32 {
         "runs_per_hour": if main_wall > 0.0 { (a.evaluations as f64 / main_wall * 3600.0) as u64 } else { 0 },
         "rule": check.rule(),
         "fault_kinds": check.fault_kinds(),
+        "enumerated": check.enumerated(tier).min(a.evaluations),
+        "enumerated_complete": first == 0 && a.evaluations >= check.enumerated(tier) && check.enumerated(tier) > 0,
         "exit": exit,
     });
     if let Some(p) = out_path {
